@@ -17,11 +17,13 @@ def memOf? (j : Json) : Option (Option Mem) :=
   | j => do
       let n ← jBool? (← jField? j "noticed")
       let f ← jBool? (← jField? j "fullyHandled")
-      some (some { noticed := n, fullyHandled := f })
+      let r ← jStrList? (← jField? j "resumed")
+      some (some { noticed := n, fullyHandled := f, resumed := r })
 
 def memJson : Option Mem → Json
   | none => .null
-  | some m => Json.mkObj [("noticed", .bool m.noticed), ("fullyHandled", .bool m.fullyHandled)]
+  | some m => Json.mkObj [("noticed", .bool m.noticed), ("fullyHandled", .bool m.fullyHandled),
+                          ("resumed", .arr (m.resumed.map Json.str).toArray)]
 
 def handle : DrvHandler := fun op args =>
   match op, args with
